@@ -10,13 +10,6 @@ import Iox2.Proof.ComposePS
 namespace Iox2.Props.C01Compose
 open Iox2.Compose Iox2.Compose.PS Iox2.Gen.ApiOrder
 
-def expand : List Src → List POp
-  | [] => []
-  | .refresh :: r => .refresh :: expand r
-  | .addHistory :: r => .addHistory :: expand r
-  | .deliver :: r => .deliver :: expand r
-  | _ :: r => expand r
-
 def sendProg : List POp := expand publisher_sendSample
 
 /-- the CURRENT source: refresh the connections, then the history, then deliver -/
